@@ -77,7 +77,7 @@ def s_plu(S, MIN):
         lp = S.loop('r', i + 1, n, 'asc', folds)
         with lp as r:
             cand = S.L('A', n * r + i)
-            better = lambda new, old: sel(sp.Symbol('gt'), sp.Abs(cand), Fa, new, old)
+            better = lambda new, old: scev.mksel('gt', sp.Abs(cand), Fa, new, old)
             folds[Fa] = (sp.Abs(piv0), better(sp.Abs(cand), Fa))
             folds[Fx] = (piv0, better(cand, Fx))
             folds[Fi] = (i, better(r, Fi))
@@ -208,7 +208,7 @@ def s_sgndet(init):
         folds = {}
         with S.loop('i', 0, n, 'asc', folds) as i:
             d = S.L('A', (n + 1) * i)
-            folds[F] = (init, sel(sp.Symbol('lt'), d, 0, -F, F))
+            folds[F] = (init, scev.mksel('lt', d, 0, -F, F))
             top = S.stack[-1]
             top[2].append(('if', Cmp('lt', d, 0), [], [('exitif', Cmp('eq', d, 0), [('ret', 0, None)], None)], None))
             top[1] += 1
